@@ -194,6 +194,7 @@ def run(ctx):
     samples = []
     # corpus first
     for fname, mode, s0, cnt, env in load_corpus():
+        env = dict(env, VRT_STEP_LIMIT="400000")
         runs = ctx.econc(exe, drv, [mode], s0, cnt, env=env)
         dist["corpus"] += len(runs)
         for r in runs:
@@ -211,10 +212,13 @@ def run(ctx):
     for mode, cnt, env in plan:
         if enough():
             break
+        # a run that never finishes (e.g. a collector polling for ever) ends with `VERDICT step-limit` after a
+        # bounded trace instead of the 3M-step default (largest healthy run: ~60k steps in mode big)
+        env = dict(env, VRT_STEP_LIMIT="400000")
         if ctx.broken:
             cnt *= 5   # search mode: a proof obligation / the translator / the correspondence broke, look harder
         runs = ctx.econc(exe, drv, [mode], seed0, cnt, env=env)
-        dist["modes"][mode + ("/pct" if env else "")] = len(runs)
+        dist["modes"][mode + ("/pct" if "VRT_STRATEGY" in env else "")] = len(runs)
         for r in runs:
             classify(ctx, r, mode, env, True, dist, distinct)
             if len(samples) < 1 and mode == "tl" and 80 < len(r["lines"]) < 200 and r["verdict"] == "ok":
